@@ -471,11 +471,20 @@ def r10_2(ctx: Ctx) -> None:
     t, v = a.ast.target, a.ast.value
     same_agent = (isinstance(v, ast.Attribute) and v.attr == "current_reward" and unparse(v.value) == unparse(t.value)
                   and isinstance(t.value, ast.Attribute) and t.value.attr == "reward_function" and _agent_alias(t.value.value, ld, key))
-    w = _skip_witness(g, loop, [a])
-    once = len(accs) == 1 and a.loops == (loop.ast,) and w is None and isinstance(a.ast.op, ast.Add) and not plain \
-        and not _early_exits(g, loop) and not _continues(g, loop)
+    # every iteration in which the reward was recomputed must reach the accumulation (an iteration that did not
+    # recompute it - step 0 - adds the initial 0, or nothing: both are the same total)
+    w = None
+    for u in upd:
+        if u is a:
+            continue
+        p = g.path_avoiding([loop], lambda e: False, start=u, blocked_nodes={a.id})
+        if p is not None:
+            w = path_text(p) or ["(straight-line path from update_reward to the next iteration)"]
+    p_exit = g.path_avoiding([g.exit, g.raise_exit], lambda e: False, start=upd[0], blocked_nodes={a.id, loop.id})
+    once = len(accs) == 1 and a.loops == (loop.ast,) and w is None and p_exit is None and isinstance(a.ast.op, ast.Add) and not plain
     ctx.record(R, ctx.key(fn, "total_reward += current_reward exactly once per agent per call"), fn.loc(a.ast), once and same_agent,
-               f"`{unparse(a.ast)}`: {len(accs)} statement(s), on every iteration: {w is None}, same agent on both sides: {same_agent}", w)
+               f"`{unparse(a.ast)}`: {len(accs)} statement(s), reached in every iteration that recomputed the reward: "
+               f"{w is None and p_exit is None}, same agent on both sides: {same_agent}", w or path_text(p_exit))
     # accumulate after the update within an iteration
     p = g.path_avoiding(upd, lambda e: False, start=a, blocked_nodes={loop.id})
     ctx.record(R, ctx.key(fn, "total is advanced after the step reward was recomputed"), fn.loc(a.ast), p is None,
@@ -662,9 +671,19 @@ def _has_cycle(ctx: Ctx) -> None:
     nb = _loop_var_name(lp)
     sets = _set_names(fn)
     removed = [s for s in sets if any(call_name(c) in ("remove", "discard") and unparse(c.func.value) == s for c in calls_in(dfs.node))]
-    if len(removed) != 1 or len(sets) < 1:
-        raise AnalysisError("R10.3: graph_has_cycle's DFS has no single recursion-stack set (a set that nodes are removed from)")
-    onstack = removed[0]
+    tested = [s for s in sets if any(_membership_edge(e, np_, s) is not None for e in g.edges())]
+    # the recursion-stack set: the one nodes are taken out of again; if nothing is ever removed, the tested set whose
+    # membership answers `True`
+    if len(removed) == 1:
+        onstack = removed[0]
+    else:
+        cands = [s for s in tested if all(_is_true(r.ast.value) for e in g.edges() if _membership_edge(e, np_, s) is True
+                                          for r in _returns_reachable(g, e.dst))]
+        if len(cands) != 1:
+            ctx.fail(R, ctx.key(dfs, "back edge (node on the recursion stack) returns True"), dfs.loc(),
+                     "no membership test on the DFS argument answers `True`: a cycle is never recognised")
+            return
+        onstack = cands[0]
     rets = [n for n in g.nodes if n.kind == "stmt" and isinstance(n.ast, ast.Return)]
     for r in rets:
         if not (_is_true(r.ast.value) or _is_false(r.ast.value)):
